@@ -931,6 +931,11 @@ def run_dispatch(ctx: Ctx):
 # ----------------------------------------------------------------------------- entry points
 
 def run(ctx: Ctx):
+    from . import util_lie as _UL
+    def _reads(name):
+        return {"euler": lambda o: o.euler(), "matrix": lambda o: o.matrix(),
+                "from_matrix": lambda o: _UL.pp().from_matrix(o.matrix(), o.ltype, check=False).matrix()}
+    _UL.persistent_probe(ctx, _reads)
     run_dispatch(ctx)
     run_kernel(ctx, ctx.pick(150, 1500))
     run_roundtrip(ctx, ctx.pick(900, 9000))
